@@ -126,6 +126,12 @@ CHECKS = {
  'C18': (['asan'], 'sanitizer monitor (ASan+UBSan, signals, confirmed hangs) over grammar-seeded and mutated parser inputs + differential monitor: one reused Parser / SbmlParser object vs a fresh parser on every input of a sequence',
          'Corpus = str() / sbml() of random expressions over every node class + 27 hand-written seeds; 1-6 mutations (token insert / delete / replace / duplicate / swap, 500-deep nests, 400-digit numbers, huge exponents) and raw bytes; sequences of 6 inputs with valid and invalid interleaved; parse (convert_xor on/off) and parse_sbml.',
          'Mutation-based, not coverage-guided (the libFuzzer configuration was not built); parse_old is not part of the property.', 'DESIGN.md 3/C18'),
+ 'C15': (['asan'], 'event-log monitor: the printed C text of every expression is compiled by gcc (C89 / C99) and executed; results compared with the monitor\'s mpmath evaluation of the printed expression\'s tree (conditioning-aware tolerance); text that gcc rejects is a violation',
+         'Expressions over arithmetic, integer / rational / float powers, 33 elementary functions, atan2, constants, big literals, Piecewise with relational conditions, max/min through ccode, c89code, c99code at double and float precision; 3 input vectors.',
+         'Contains conditions and complex values are outside the property\'s node list and not generated / not judged.', 'DESIGN.md 3/C15'),
+ 'C43': (['gmp', 'gmpxx', 'boostmp'], 'differential monitor across three builds that differ only in INTEGER_CLASS: the same exact programs are executed in each and every statement outcome (status, exception type, tree, string) compared',
+         'Programs of 6-10 exact computations on 31-400 bit operands around limb boundaries: gcd family, six division flavours, modular inverse / power, integer roots, perfect powers, primality, combinatorial functions, jacobi / kronecker, rational chains with powers, expand, UIntPoly arithmetic, integer to rational powers, printing.',
+         'FLINT is not installed, so that backend is not covered; absolute correctness of the gmp build is judged by C05 / C09 / C21 / C32.', 'DESIGN.md 3/C43'),
 }
 
 def main():
